@@ -120,6 +120,12 @@ impl EntropyNormalizer {
         let entropy = self.calculate_entropy(frequencies);
         let mut normalized = vec![0u32; frequencies.len()];
         let mut remaining = target_total;
+        // Present symbols not placed yet: each of them must still find a slot, so a share is clamped
+        // to `remaining - to_place` instead of `remaining` (a symbol with 0 slots cannot be coded).
+        let mut to_place = frequencies.iter().filter(|&&f| f > 0).count() as u32;
+        if to_place > target_total {
+            return Err(ZiporaError::invalid_data("More symbols than table slots"));
+        }
         
         // First pass: allocate based on entropy contribution
         if self.adaptive_scaling && entropy > self.entropy_threshold {
@@ -133,7 +139,8 @@ impl EntropyNormalizer {
                         ((freq as f64 * target_total as f64) / total_freq).round() as u32
                     };
                     
-                    normalized[i] = allocation.max(1).min(remaining);
+                    to_place -= 1;
+                    normalized[i] = allocation.max(1).min(remaining - to_place);
                     remaining = remaining.saturating_sub(normalized[i]);
                 }
             }
@@ -142,7 +149,8 @@ impl EntropyNormalizer {
             for (i, &freq) in frequencies.iter().enumerate() {
                 if freq > 0 {
                     let allocation = ((freq as f64 * target_total as f64) / total_freq).round() as u32;
-                    normalized[i] = allocation.max(1).min(remaining);
+                    to_place -= 1;
+                    normalized[i] = allocation.max(1).min(remaining - to_place);
                     remaining = remaining.saturating_sub(normalized[i]);
                 }
             }
@@ -485,11 +493,17 @@ impl FseTable {
             
         let mut normalized_freqs = vec![0u32; max_symbol as usize + 1];
         let mut remaining = table_size as u32;
+        // Present symbols not placed yet: each of them must still find a slot (see EntropyNormalizer)
+        let mut to_place = frequencies.iter().take(max_symbol as usize + 1).filter(|&&f| f > 0).count() as u32;
+        if to_place > remaining {
+            return Err(ZiporaError::invalid_data("More symbols than table slots"));
+        }
         
         for i in 0..=max_symbol as usize {
             if frequencies[i] > 0 {
                 let freq = ((frequencies[i] as u64 * table_size as u64) / total_freq) as u32;
-                normalized_freqs[i] = freq.max(1).min(remaining);
+                to_place -= 1;
+                normalized_freqs[i] = freq.max(1).min(remaining - to_place);
                 remaining = remaining.saturating_sub(normalized_freqs[i]);
             }
         }
